@@ -52,4 +52,6 @@ CORPUS = [
     T('c04-benign-hky-reorder-terms', NUC, "                -(pi[..., 1] + kappa * pi[..., 2] + pi[..., 3]),", "                -(pi[..., 3] + pi[..., 1] + pi[..., 2] * kappa),", benign=True),
     Mut('c04-eigen-of-perturbed-matrix', 'torchtree/evolution/substitution_model/abstract.py', 'SymmetricSubstitutionModel.eigen', 'return torch.linalg.eigh(Q)', 'return torch.linalg.eigh(Q + 1e-08 * torch.eye(Q.shape[-1]))',
         expect=[('C04.E', 'SymmetricSubstitutionModel.eigen::decomposes-its-argument-unchanged')]),
+    Mut('c04-matrix-exp-fallback-similarity-reversed', 'torchtree/evolution/substitution_model/abstract.py', '', "        offset = branch_lengths.dim() - e.dim() + 1\n", "        offset = branch_lengths.dim() - e.dim() + 1\n        if S.requires_grad and bool((e[..., 1:] - e[..., :-1] <= 1.0e-7).any()):\n            shape = e.shape[:-1] + (1,) * offset + S.shape[-2:]\n            exp_S = torch.matrix_exp(S.reshape(shape) * branch_lengths.unsqueeze(-1).unsqueeze(-1))\n            return sqrt_pi.expand(S.shape).reshape(shape) @ exp_S @ sqrt_pi_inv.expand(S.shape).reshape(shape)\n", expect=[('C04.E', 'SymmetricSubstitutionModel.p_t::alternative-return')], mode='text'),
+    Mut('c04-benign-matrix-exp-fallback', 'torchtree/evolution/substitution_model/abstract.py', '', "        offset = branch_lengths.dim() - e.dim() + 1\n", "        offset = branch_lengths.dim() - e.dim() + 1\n        if S.requires_grad and bool((e[..., 1:] - e[..., :-1] <= 1.0e-7).any()):\n            shape = e.shape[:-1] + (1,) * offset + S.shape[-2:]\n            exp_S = torch.matrix_exp(S.reshape(shape) * branch_lengths.unsqueeze(-1).unsqueeze(-1))\n            return sqrt_pi_inv.expand(S.shape).reshape(shape) @ exp_S @ sqrt_pi.expand(S.shape).reshape(shape)\n", benign=True, mode='text'),
 ]
